@@ -4,6 +4,7 @@
 From Coq Require Import List ZArith NArith Bool Arith.
 Import ListNotations.
 From RV Require Import Lib.Str Model.DataFile Proofs.DataFileP.
+From RV Require Import Gen.GenFacts.
 
 (** What a session appends to a loadable file is read back by the loader as exactly the data
     points it recorded - each once, whole, in order, for the right run, warm-up included - and
@@ -40,6 +41,13 @@ Theorem C06_columns :
     /\ ~ In c_lf (write_columns cols) /\ ~ In c_cr (write_columns cols).
 Proof. exact columns_roundtrip. Qed.
 Print Assumptions C06_columns.
+
+(** Read off the writer on every run: the data file is opened in append mode and the column header is written only
+    when the file was empty at that moment; a data point's lines are written and flushed inside the persistence
+    lock.  These are the assumptions under which Model.session_lines describes the writer. *)
+Theorem C06_writer_structure : header_iff_empty = true /\ persist_locked = true.
+Proof. split; reflexivity. Qed.
+Print Assumptions C06_writer_structure.
 
 (** Non-vacuity: two data points of one new run appended to an empty file. *)
 Example C06_example :
